@@ -502,7 +502,9 @@ def _row_fresh(e):
     if isinstance(el, ast.Subscript) and dotted(el.value) == r and isinstance(el.slice, ast.Slice) and el.slice.lower is None and el.slice.upper is None:
         return True
     if isinstance(el, ast.ListComp) and len(el.generators) == 1 and dotted(el.generators[0].iter) == r:
-        return True
+        # ... of the samples themselves: [v for v in row], nothing applied to v, nothing filtered
+        g = el.generators[0]
+        return isinstance(g.target, ast.Name) and dotted(el.elt) == g.target.id and not g.ifs
     return False
 
 
@@ -540,6 +542,19 @@ def rule_g(repo, res):
                     ok = _row_fresh(a.value)
                 elif isinstance(a, ast.Dict):
                     ok = bool(a.values) and all(_row_fresh(v) for v in a.values)
-                res.check(ok, "C04.g", "%s:picture_encode-argument" % fn.name, "%s:%s" % (mod.rel, fn.name), "picture_encode receives `%s`: a whole-object copy keeps rows that the caller's picture shares (e.g. [[v] * w] * h) shared, and the in-place offset removal / transform then updates the one row once per row index -- the encoding is not of the supplied picture" % short(c.args[1], 70), by="rebuilt row by row: every row is a new object")
+                res.check(ok, "C04.g", "%s:picture_encode-argument" % fn.name, "%s:%s" % (mod.rel, fn.name), "picture_encode receives `%s`: a whole-object copy keeps rows that the caller's picture shares (e.g. [[v] * w] * h) shared, and the in-place offset removal / transform then updates the one row once per row index -- the encoding is not of the supplied picture; likewise a copy that clamps, scales or filters the samples encodes other values than those supplied (the statement covers every value within the bit depth)" % short(c.args[1], 70), by="rebuilt row by row: every row is a new object holding the caller's samples unchanged")
     if n_sites == 0:
         raise AnalysisError("no call of picture_encode outside the pseudocode package")
+    # each component's coefficients are its own array: state['<c>_transform'] = dwt(state, current_picture['<C>']),
+    # three unconditional stores (a shared array is updated twice by the in-place DC prediction of low-delay pictures)
+    from ..core import pfind as _pfind
+
+    fwd = em.funcs.get("forward_wavelet_transform")
+    if fwd is None:
+        raise AnalysisError("anchor vanished: picture_encoding.forward_wavelet_transform")
+    stv, pic = [a_.arg for a_ in fwd.args.args[:2]]
+    body = [b for b in fwd.body if not (isinstance(b, ast.Expr) and isinstance(b.value, ast.Constant))]
+    for key, comp in (("y_transform", "Y"), ("c1_transform", "C1"), ("c2_transform", "C2")):
+        stores = [b for b in ast.walk(fwd) if isinstance(b, ast.Assign) and subscript_key(b.targets[0], stv) == key]
+        ok = len(stores) == 1 and stores[0] in body and norm(stores[0].value) == "dwt(%s, %s['%s'])" % (stv, pic, comp)
+        res.check(ok, "C04.g", "forward_wavelet_transform:%s-own-array" % key, "%s:forward_wavelet_transform" % em.rel, "%s['%s'] must be assigned exactly once, unconditionally, the result of dwt(%s, %s['%s']) (found %s): sharing one coefficient array between components lets a later in-place step (DC prediction) act on it twice" % (stv, key, stv, pic, comp, [short(x.value, 40) for x in stores]), by="%s = dwt(state, picture['%s'])" % (key, comp))
